@@ -184,6 +184,7 @@ type c07Point struct {
 	EpLevel  int     `json:"max_level"`
 	Refining bool    `json:"needs_refine"`
 	MassVac  bool    `json:"after_mass_vacuum,omitempty"` // some vacuum before this checkpoint removed >= 80 % of the graph's nodes in one go
+	MassDel  bool    `json:"after_mass_delete,omitempty"` // at some moment before this checkpoint >= 95 % of the graph's nodes were soft-deleted and not yet vacuumed
 }
 
 type c07rRun struct {
@@ -201,6 +202,7 @@ type c07rRun struct {
 	restored   bool // a fast-import graph came back from a snapshot (needs-refine compensation lost)
 	counter    int  // harness estimate of the index's node counter (decides which batches take the parallel path)
 	massVac    bool // a vacuum has removed >= 80 % of the graph's nodes in one go
+	massDel    bool // >= 95 % of the graph's nodes were soft-deleted at the same time at some moment
 	nSeq, nPar int  // nodes of the current graph inserted one by one (Index.Add) / by the parallel batch path
 	points     []c07Point
 	labels     map[string]bool
@@ -307,7 +309,7 @@ func (r *c07rRun) measure(after string) string {
 	if r.c.Anchor != "" {
 		cls = fmt.Sprintf("anchor:%s#%d", r.c.Anchor, len(r.points))
 	}
-	pt := c07Point{Class: cls, After: after, Live: len(live), Self: -1, Refining: h.NeedsRefine(), MassVac: r.massVac}
+	pt := c07Point{Class: cls, After: after, Live: len(live), Self: -1, Refining: h.NeedsRefine(), MassVac: r.massVac, MassDel: r.massDel}
 	if g, err := c07ReadGraph(r.e); err == nil {
 		pt.EpLevel = g.MaxLevel
 	}
@@ -421,6 +423,13 @@ func (r *c07rRun) phase(p string) string {
 			r.liveIDs = r.liveIDs[:len(r.liveIDs)-1]
 			if err := r.e.VDelete(c07Index, id); err != nil {
 				return fmt.Sprintf("harness: VDelete(%s) failed: %v", id, err)
+			}
+		}
+		if g, err := c07ReadGraph(r.e); err == nil && g.Dead+g.Live > 0 && 100*g.Dead/(g.Dead+g.Live) >= 80 {
+			r.labels["graph-with>=80%-soft-deleted-nodes"] = true
+			if 100*g.Dead/(g.Dead+g.Live) >= 95 {
+				r.massDel = true
+				r.labels["graph-with>=95%-soft-deleted-nodes"] = true
 			}
 		}
 	case "vacuum", "refine":
@@ -661,6 +670,9 @@ func c07Judge(c c07RecallCase, pts []c07Point) string {
 		if p.Live < 50 || strings.HasSuffix(p.Class, "R") {
 			continue
 		}
+		if c07KnownMassDelete(c, p) {
+			continue
+		}
 		f, ok := c07Floors[p.Class]
 		if !ok {
 			continue
@@ -677,6 +689,17 @@ func c07Judge(c c07RecallCase, pts []c07Point) string {
 		}
 	}
 	return ""
+}
+
+// c07KnownMassDelete: the shape of the known finding "mass-delete-clustered" (known_findings.json): on clustered
+// data, once one vacuum has removed >= 80 % of the graph's nodes in one go, or >= 95 % of the nodes were
+// soft-deleted at the same time, recall and self-retrieval can fall far below the floors - clustered data
+// fragments the base layer, the few live nodes left on the upper layers do not lead into every fragment, and the
+// vacuum's repair pass starts from the same places. Such checkpoints of generated cases are counted, not judged;
+// the anchors (gaussian data) and every other data shape are judged as ever.
+// VERIF_NOEXCLUDE=mass-delete-clustered judges them.
+func c07KnownMassDelete(c c07RecallCase, p c07Point) bool {
+	return (p.MassDel || p.MassVac) && c.Anchor == "" && c.Data == "clustered" && verifkit.Known("mass-delete-clustered")
 }
 
 func (r *c07rRun) labelList() []string {
@@ -766,6 +789,11 @@ func TestVerif_C07_recall(t *testing.T) {
 			f, ok := c07Floors[p.Class]
 			if !ok {
 				col.Label("checkpoint-observed-only(class without measured floor)", 1)
+				continue
+			}
+			if c07KnownMassDelete(c, p) {
+				col.Label("checkpoint-excluded(known finding mass-delete-clustered)", 1)
+				col.Excluded("mass-delete-clustered")
 				continue
 			}
 			col.Label("checkpoint-asserted", 1)
